@@ -1,0 +1,7 @@
+//go:build verif
+
+package appctlcommon
+
+// Exports for the external verification harness (property C20). Add-only; compiled only with -tags verif.
+
+const VerifMaxQuotaDays = maxQuotaDays
